@@ -67,7 +67,9 @@ def derived(c):
     elif op == "moment":
         d["order_ge2"] = c["order"] >= 2
     elif op == "tensordot":
-        d["batch_unsorted"] = list(c["b1"]) != sorted(c["b1"])
+        nb1 = [m + len(c["s1"]) if m < 0 else m for m in c["b1"]]
+        d["batch_unsorted"] = nb1 != sorted(nb1)
+        d["orders_differ"] = len(c["s1"]) != len(c["s2"])
     return d
 
 
@@ -127,6 +129,8 @@ def call(c, ts, w, mask, idx, rs):
     if op == "batched_outer":
         return tenalg.batched_outer(list(ts))
     if op == "tensordot":
+        # the configuration carries the mode numbers AS SPELLED (negative = counted from the end, cfg.neg
+        # says which arguments); the specification normalises them
         modes = len(c["m1"]) if c["mint"] else (list(c["m1"]), list(c["m2"]))
         batched = c["b1"][0] if c["bint"] else (list(c["b1"]), list(c["b2"]))
         return tenalg.tensordot(ts[0], ts[1], modes, batched_modes=batched)
@@ -199,10 +203,12 @@ def execute(case):
 
 
 # ----------------------------------------------------------------------------- driver
-def make_cases(cfgs, seed, draws):
+def make_cases(cfgs, seed, draws, quick=False):
     cases = []
     for k, c in enumerate(cfgs):
         for d in range(draws):
+            if quick and d == 0 and k % 2:       # quick tier: the real-valued draw for every second configuration only
+                continue
             cplx = bool(d % 2) and c["op"] != "moment"      # moments: real data only (spec domain)
             for be in BACKENDS:
                 cases.append({"id": "C02/%05d/%s/%d" % (k, be, d), "k": k, "cfg": c, "backend": be, "draw": d,
@@ -228,7 +234,7 @@ def run(chk, opts):
     if opts.get("op"):
         cfgs = [c for c in cfgs if c["op"] in opts["op"].split(",")]
     draws = int(opts.get("draws", 8 if thorough else 2))
-    cases = make_cases(cfgs, chk.seed, draws)
+    cases = make_cases(cfgs, chk.seed, draws, quick=not thorough)
     chk.add_cases(cases)
     events = execute_cases(execute, cases, repo=chk.repo, chunksize=32)
     per_op = {}
@@ -237,7 +243,8 @@ def run(chk, opts):
     chk.notes["configs_per_op"] = per_op
     chk.rule = ("all %d configurations enumerated by Multilinear.tla (%s tier: spec-defined thinning of the full product of operand "
                 "shapes [order<=4, dims<=3, <=36 entries] x modes x options for 11 operations), each under both tenalg backends, "
-                "%d draws of integer / Gaussian-integer operands in -3..3 per backend; one event per (configuration, backend, draw); "
+                "%d draws of integer / Gaussian-integer operands in -3..3 per backend (quick: the Gaussian draw for every configuration, "
+                "the real draw for every second one); one event per (configuration, backend, draw); "
                 "distinct = distinct (configuration, backend) pairs" % (len(cfgs), chk.tier, draws))
     for e in events:
         if "cfg" in e:
@@ -245,7 +252,7 @@ def run(chk, opts):
     good = [e for e in events if "cfg" in e]
     for e in good[len(good) // 3: len(good) // 3 + 2] + good[-2:]:
         chk.sample(e)
-    _report(chk, events, chk.validate("MultilinearTrace", events))
+    _report(chk, events, chk.validate("MultilinearTrace", events, chunks=16 if thorough else 8))
     # every enumerated configuration ran under both backends; NOT exhaustive over the bounded domain:
     # the enumeration is a thinning of the full product and operand values are sampled
     chk.notes["enumerated_domain_covered"] = len(chk.distinct) == 2 * len(cfgs) and not chk.machinery and not opts.get("op")
@@ -257,6 +264,7 @@ def run(chk, opts):
         "operand values are random integers in -3..3 (float64 / complex128): a multilinear map that agrees with the formula on generic "
         "draws agrees everywhere with overwhelming probability, but this is sampling of VALUES (shapes/options are enumerated)",
         "both tiers enumerate a spec-defined thinning (linear hash) of the full shape x option product, not the full product",
+        "negative mode numbers are covered for tensordot (modes / batched_modes, cfg.neg) only: the other operations do not promise them",
         "higher_order_moment on real data only; MTTKRP with real weights only; tensordot output mode order: two readings accepted",
     ]
 
